@@ -190,7 +190,7 @@ def deref_expr(prog, fn, expr):
             mutated.add(b_.id)
 
     # values bound by tuple unpacking (``a, b = f()``) are not definitions of the single names
-    unpacked_values = {id(v_) for t_, v_, s_, k_ in iter_stores(fn.node) if k_.startswith("assign[") and v_ is not None and not isinstance(v_, (ast.Tuple, ast.List))}
+    unpacked_values = {id(v_) for t_, v_, s_, k_ in iter_stores(fn.node) if (k_.startswith("assign[") or k_.startswith("for")) and v_ is not None and not isinstance(v_, (ast.Tuple, ast.List))}
 
     class D(ast.NodeTransformer):
         def __init__(self):
